@@ -889,7 +889,13 @@ impl Lexer<'_> {
             }
             c if is_valid_unicode_sas_name_start(c) => {
                 self.lex_identifier();
-                self.set_pending_stat(true);
+                // Datalines are lexed as a whole, including the terminating semi
+                // that ends the statement. Everything else is mid-statement
+                let stat_ended = self
+                    .buffer
+                    .last_token_info()
+                    .is_some_and(|t| t.token_type == TokenType::SEMI);
+                self.set_pending_stat(!stat_ended);
             }
             _ => {
                 // Something else must be a symbol or some unknown character
